@@ -206,7 +206,9 @@ CallBounded(a) ==
                   ELSE IF over /\ exc = "none" /\ Archived(cur) THEN DumpKeys(ar, m2, {popk}) ELSE ar
            q3  == IF purge THEN <<>> ELSE q2
        IN /\ mem' = m3 /\ archs' = WithArch(cur, ar3)
-          /\ queue' = IF exc = "none" /\ ~(over /\ ~purge /\ q1 = <<>>) THEN Append(q3, k) ELSE q3
+          /\ queue' = IF exc = "none" /\ ~(over /\ ~purge /\ q1 = <<>>)
+                          /\ (~purge \/ "mru_purge_leaves_stale_use" \in Deviations)
+                       THEN Append(q3, k) ELSE q3
           /\ stats' = st2
           /\ UNCHANGED <<cur, swap, refc, ucnt, uord>>
           /\ Finish(Event("call", Ret(a, IF exc = "none" THEN res ELSE 0, exc, evs)))
@@ -356,7 +358,7 @@ Spec == Init /\ [][Next]_vars
 
 -----------------------------------------------------------------------------
 (* Refinement obligation: every step of layer I satisfies every selected clause of layer P *)
-StepOK == Select(Failed(Cfg, PState, last'), Props) = {}
+StepOK == Failed(Props, Cfg, PState, last') = {}
 Refines == [][StepOK]_vars
 
 (* structural invariants of the mechanism (layer I only) *)
@@ -368,8 +370,8 @@ LruQueueCoversResident ==
 LruRefcountIsMultiplicity ==
    (EffAlg = "lru") => \A k \in 1..NK : refc[k] >= 0 => refc[k] = Cardinality({p \in 1..Len(queue) : queue[p] = k})
 LruQueueBounded == EffAlg = "lru" => Len(queue) <= MAXSIZE * QMULT
-MruQueueIsResident ==   \* (a purge leaves the purged call's key in the queue: harmless, it is never on top at an overflow)
-   (EffAlg = "mru" /\ ~g.taint) => Dom(mem) \subseteq ToSet(queue)
+MruQueueIsResident ==
+   (EffAlg = "mru" /\ ~g.taint) => Dom(mem) = ToSet(queue) /\ Len(queue) = Size(mem)
 MruTopIsResident ==
    (EffAlg = "mru" /\ ~g.taint /\ Size(mem) > 0) => queue # <<>> /\ queue[Len(queue)] \in Dom(mem)
 LfuCountsAreResident ==
